@@ -82,7 +82,9 @@ func H_C19_stop() {
 	}
 	delays := []time.Duration{0, interval - 1, interval, interval + 100*time.Millisecond, interval + 1500*time.Millisecond, interval + 3*time.Second, 2*interval + 2200*time.Millisecond}
 	time.Sleep(delays[choose("stopAt", len(delays))])
+	t0 := nowNs()
 	hc.Stop()
+	assert(nowNs()-t0 <= int64(300*time.Millisecond), "Stop returns promptly: it waits at most for a ping already in flight, never for a retry wait")
 	allowCrash(false)
 	cover("stopped")
 	n := cl.pings
